@@ -4,7 +4,7 @@ use super::*;
 
 pub fn contracts() -> Vec<Contract> {
     vec![
-        Contract { name: "c12_async_signature", function: "trait_codegen.rs::make_trait_fn_sig, sub_attributes.rs::{analyze_sub_attributes, contains_async_trait}, opt.rs::EntraitOpt::parse (?Send), entrait_trait/mod.rs::gen_impl_delegation_trait_defs", props: &["C12", "C19"], run: c12 },
+        Contract { name: "c12_async_signature", function: "trait_codegen.rs::make_trait_fn_sig, sub_attributes.rs::{analyze_sub_attributes, contains_async_trait}, opt.rs::EntraitOpt::parse (?Send), entrait_trait/mod.rs::gen_impl_delegation_trait_defs", props: &["C12", "C19", "C05"], run: c12 },
         Contract { name: "c03_signature_conversion", function: "signature/converter.rs::SignatureConverter::convert_fn_to_trait_fn, analyze_generics.rs::{deps_with_generics, find_deps_generic_bounds}", props: &["C03", "C01"], run: c03 },
     ]
 }
@@ -43,25 +43,27 @@ fn all_impls(items: &[syn::Item]) -> Vec<&syn::ItemImpl> {
 }
 
 fn c12(_ctx: &Ctx, r: &mut Report) {
-    r.domain = "async fn / mod / trait (plain, static and dynamic delegation target) inputs x return types {none, i32, &str, Result<T, E>, &'a T} x {default, ?Send} x async_trait {absent, #[async_trait], #[async_trait::async_trait], #[async_trait(?Send)]}".into();
+    r.domain = "async fn (generic and concrete deps) / mod / trait (plain, static and dynamic delegation target) inputs x return types {none, i32, &str, Result<T, E>, &'a T} x {default, ?Send} x async_trait {absent, #[async_trait], #[async_trait::async_trait], #[async_trait(?Send)]}".into();
     r.bound = "exhaustive".into();
     let rets: [(&str, &str); 5] = [("", "()"), ("-> i32", "i32"), ("-> &str", "& str"), ("-> Result<T, E>", "Result < T , E >"), ("-> &'a T", "& 'a T")];
     let ats: [&str; 4] = ["", "#[async_trait]", "#[async_trait::async_trait]", "#[async_trait(?Send)]"];
     #[derive(Clone, Copy, Debug, PartialEq)]
     enum Kind {
         Fn,
+        FnConcrete,
         Mod,
         Trait,
         TraitStatic,
         TraitDyn,
     }
-    for kind in [Kind::Fn, Kind::Mod, Kind::Trait, Kind::TraitStatic, Kind::TraitDyn] {
+    for kind in [Kind::Fn, Kind::FnConcrete, Kind::Mod, Kind::Trait, Kind::TraitStatic, Kind::TraitDyn] {
         for (ret, want_out) in rets {
             for maybe_send in [false, true] {
                 for at in ats {
                     let lt = if ret.contains("'a") { "<'a>" } else { "" };
                     let (attr, item, checked): (String, String, Vec<&str>) = match kind {
                         Kind::Fn => (format!("Tr{}", if maybe_send { ", ?Send" } else { "" }), format!("{} async fn f{}(deps: &impl Any, a: i32) {} {{ todo!() }}", at, lt, ret), vec!["Tr"]),
+                        Kind::FnConcrete => (format!("Tr{}", if maybe_send { ", ?Send" } else { "" }), format!("{} async fn f{}(deps: &App0, a: i32) {} {{ todo!() }}", at, lt, ret), vec!["Tr"]),
                         Kind::Mod => (format!("Tr{}", if maybe_send { ", ?Send" } else { "" }), format!("{} mod m {{ pub async fn f{}(deps: &impl Any, a: i32) {} {{ todo!() }} pub fn s(deps: &impl Any) {{}} }}", at, lt, ret), vec!["Tr"]),
                         Kind::Trait => (if maybe_send { "?Send".into() } else { "".into() }, format!("{} trait Tr {{ async fn f{}(&self, a: i32) {}; fn s(&self); }}", at, lt, ret), vec!["Tr"]),
                         Kind::TraitStatic => (format!("TrImpl, delegate_by = DelegateTr{}", if maybe_send { ", ?Send" } else { "" }), format!("{} trait Tr {{ async fn f{}(&self, a: i32) {}; fn s(&self); }}", at, lt, ret), vec!["Tr", "TrImpl"]),
